@@ -167,6 +167,12 @@ def run(out):
             res = []
             desc = {"tool": c["tool"], "variant": vname, "block": c["bb"] * 8, "file_length": c["len"], "key_len": len(c["key"]), "key": c["khex"],
                     "counter_or_tweak": c["thex"], "decrypt": c["dec"]}
+            if rng.random() < 0.2:
+                # the output path already holds a longer file from an earlier run: it must be replaced, not overwritten in part
+                with open(outp, "wb") as f:
+                    f.write(b"\xA7" * (c["len"] + 1 + rng.randrange(5000)))
+                desc["output_path"] = "already holds a longer file"
+                res.append(("note:stale", "", desc))
             try:
                 src = inp
                 if c["len"] and c["len"] < 200000 and rng.random() < 0.15:
@@ -248,6 +254,8 @@ def run(out):
             for key, msg, desc in res:
                 if key == "harness":
                     out.harness_errors.append({"detail": msg, "case": desc})
+                elif key == "note:stale":
+                    out.counters["runs_whose_output_path_already_held_a_longer_file"] = out.counters.get("runs_whose_output_path_already_held_a_longer_file", 0) + 1
                 elif key == "note:fifo":
                     out.counters["inputs_fed_through_a_named_pipe_in_pieces"] = out.counters.get("inputs_fed_through_a_named_pipe_in_pieces", 0) + 1
                 elif key == "note:dup":
